@@ -1105,7 +1105,8 @@ Lemma hinv_place_full m objs pads w q ht raw w' :
     resolve_ptr (bm_data (w_dst w')) (fst q) (snd q) = (tgt_of ht, pads' ++ [obj_reg ht]) /\
     keeps m (w_dst w') (Rword (fst q) (snd q)) /\
     (forall q', In q' ((0, 0) :: flat_map slots objs) -> ~ (fst q' = fst q /\ snd q' = snd q) ->
-       resolve_ptr (bm_data (w_dst w')) (fst q') (snd q') = resolve_ptr (bm_data m) (fst q') (snd q')).
+       resolve_ptr (bm_data (w_dst w')) (fst q') (snd q') = resolve_ptr (bm_data m) (fst q') (snd q')) /\
+    placed (bm_data (w_dst w')) (fst q) (snd q) (p_seg ht) (obj_start ht) raw (fun i => zlen (mem m i)) pads'.
 Proof.
   intros Ew H Hq Hht Hnz Hraw Hpl Hns'. subst m. set (m := w_dst w) in *.
   destruct (slot_geometry _ _ _ _ H Hq) as (Q1 & Q2 & Q3 & Q4 & (rq & Rq1 & Rq2 & Rq3 & Rq4)).
@@ -1158,7 +1159,7 @@ Proof.
     - intros p Hp. destruct (PF p Hp) as (Z1 & Z2 & Z3). unfold in_msg in Z3.
       destruct (in_seg_elim _ _ _ _ Z3) as (Y1 & Y2 & Y3 & Y4 & Y5). rewrite seg_len_bm in Y4.
       pose proof (Sm' (r_seg p)). unfold maxSegmentSize in *. lia. }
-  split; [|split; [exact RQ|split; [exact K|]]].
+  split; [|split; [exact RQ|split; [exact K|split; [|exact Hpd]]]].
   2:{ intros q' Hq' NE. apply (slot_resolve_frame m m' (Rword (fst q) (snd q)) pads objs); auto.
       - apply (hi_tags _ _ _ H).
       - intros k Hk [X1 X2]. destruct (slot_geometry _ _ _ _ H Hq') as (_ & _ & P3 & _). lia.
